@@ -252,10 +252,26 @@ def rule_c17_columns(prog: Program, col: Collector) -> None:
             if r[0] in ("ifexp", "phi"):
                 return alternatives(r[2]) + alternatives(r[3])
             return [r]
+        cpar = ("param", ref.positional_params()[2])
+        none_test = ("cmp", "is", cpar, ("const", None))
+
+        def conditioned(r, conds):
+            """(alternative, conditions it is chosen under): the guards of the branch plus the tests of the conditionals that select it."""
+            if r[0] in ("ifexp", "phi") and len(r) > 3:
+                return conditioned(r[2], conds + [(r[1], True)]) + conditioned(r[3], conds + [(r[1], False)])
+            return [(r, conds)]
+        guards = [(f[1], f[2]) for f in items[0][0].ctx if f[0] == "if"]
+        for row, conds in [x for r in rows for x in conditioned(r, list(guards))]:
+            want = [(none_test, row[0] == "slice")]
+            if conds:
+                col.check(conds == want, ref.where(items[0][0].node), ref.short,
+                          "set_values writes the whole table exactly when no coalitions are given, and the rows of the given coalitions otherwise "
+                          f"(this path is chosen under {[(short(c, 50), pol) for c, pol in conds]})", construct="set_values-dispatch",
+                          necessity="a full-length value vector given WITH a coalition list still belongs to those coalitions in the given order: deciding by anything but "
+                                    "`coalitions is None` (the length of the values, a flag) lays a bulk reset that lists all coalitions in another order down in id order")
         for row in [alt for r in rows for alt in alternatives(r)]:
             if row[0] == "slice":
                 continue
-            cpar = ("param", ref.positional_params()[2])
             core = row
             while is_call_to(core, "numpy.fromiter", "numpy.array", "numpy.asarray", "list") and core[2]:
                 core = core[2][0]
@@ -741,3 +757,121 @@ def rule_c17_compute_and_state(prog: Program, col: Collector) -> None:
               "no per-object state besides the table (found: " + ", ".join(sorted({e.attr for _, e in extra})) + ")" if extra else "no per-object state besides the table",
               construct="extra-object-state",
               necessity="caches, dirty flags and memoised bounds on the game object let the operation history leak into what the getters return")
+
+
+# ------------------------------------------------------------------------------------------------ the game object as substrate
+_SUBSTRATE_CACHE: dict = {}
+_CLASS = CLS.rsplit('.', 1)[-1]
+_OPERATOR_METHODS = {ast.USub: "__neg__", ast.Add: "__add__", ast.Eq: "__eq__", ast.NotEq: "__eq__"}
+
+
+def game_methods_used(prog: Program, pid: str) -> set[str]:
+    """Methods of IncompleteCooperativeGame that the code of a property can run: every method of the class whose name is called (on any receiver:
+    receiver types are not inferred, so this over-approximates) in a function of the property's anchor files or in a package function reachable
+    from one through resolved calls (depth 3), closed under the calls the methods make on ``self``; ``__init__`` when the class is instantiated."""
+    key = (id(prog), pid)
+    if key in _SUBSTRATE_CACHE:
+        return _SUBSTRATE_CACHE[key]
+    from .common import resolve_callee
+    from .hygiene import anchor_files
+    gm = GameModel(prog)
+    names = set(gm.methods)
+    files = set(anchor_files(pid))
+    if gm.mod.rel() in files:
+        # the game module is itself anchored by the property: its whole API is in scope
+        _SUBSTRATE_CACHE.clear()
+        _SUBSTRATE_CACHE[key] = set(names)
+        return set(names)
+    todo = [(r, 0) for r in prog.all_functions() if r.module.rel() in files]
+    seen: set[str] = set()
+    used: set[str] = set()
+    while todo:
+        ref, d = todo.pop()
+        if ref.qual in seen:
+            continue
+        seen.add(ref.qual)
+        if ref.cls is not None and ref.module is gm.mod and ref.cls.name == _CLASS:
+            continue
+        ft = fterms(prog, ref)
+        for e in ft.calls():
+            if e.recv is not None and e.name in names:
+                # `copy` is also the name of array / dict / list methods: counted only on a receiver that is named like a game
+                if e.name != "copy" or any(w in show(e.recv).lower() for w in ("game", "incomplete")):
+                    used.add(e.name)
+            if e.data["func"][0] == "global" and e.data["func"][1].endswith("." + _CLASS):
+                used.add("__init__")
+            if d < 3:
+                c = resolve_callee(prog, ft, e)
+                if c is not None and "/tests/" not in c.module.rel():
+                    todo.append((c, d + 1))
+        for n in ast.walk(ref.node):
+            op = getattr(n, "op", None)
+            if isinstance(n, (ast.UnaryOp, ast.BinOp)) and type(op) in _OPERATOR_METHODS and _OPERATOR_METHODS[type(op)] in names:
+                operand = n.operand if isinstance(n, ast.UnaryOp) else n.left
+                if isinstance(operand, ast.Name) and "game" in operand.id.lower():
+                    used.add(_OPERATOR_METHODS[type(op)])
+    # closure over self-calls inside the class
+    grew = True
+    while grew:
+        grew = False
+        for m in list(used):
+            ref = gm.methods.get(m)
+            if ref is None:
+                continue
+            for e in fterms(prog, ref).calls():
+                if e.recv == ("param", "self") and e.name in names and e.name not in used:
+                    used.add(e.name)
+                    grew = True
+            for n in ast.walk(ref.node):
+                if isinstance(n, ast.Attribute) and isinstance(n.value, ast.Name) and n.value.id == "self" and n.attr in names and n.attr not in used \
+                        and gm.methods[n.attr].is_property():
+                    used.add(n.attr)
+                    grew = True
+    _SUBSTRATE_CACHE.clear()
+    _SUBSTRATE_CACHE[key] = used
+    return used
+
+
+def rule_game_substrate(prog: Program, col: Collector) -> None:
+    """The incomplete-game object under a property that is not about it: the G rules are evaluated on game.py and a verdict is reported under this
+    property only when it concerns a method the property's code can run (or the object's state as a whole, G9)."""
+    used = game_methods_used(prog, col.property_id)
+    if not used:
+        col.note("game substrate: no method of IncompleteCooperativeGame is reachable from the anchor files of this property")
+        return
+    groups = [rule_c17_columns, rule_c17_getters, rule_c17_copy_neg_init, rule_c17_compute_and_state]
+    own = {r.__name__ for r in _own_rules(col.property_id)}
+    prefix = f"game.{_CLASS}."
+    for grp in groups:
+        if grp.__name__ in own:
+            continue
+        sub = Collector(col.property_id)
+        try:
+            grp(prog, sub)
+        except AnalysisError as e:
+            col.undecidable(GameModel(prog).mod.rel(), f"game.{_CLASS}", f"{grp.__name__}: {e}", rule="G-sub")
+            continue
+
+        def in_scope(func: str, rule: str) -> bool:
+            if rule == "G9":
+                return True
+            return not func.startswith(prefix) or func[len(prefix):].split(".")[0] in used
+        for rid, text in sub.rules_run.items():
+            col.rules_run.setdefault(rid, text + " [as substrate: reported for the methods this property's code can run]")
+        kept = 0
+        for s in sub.sites:
+            if in_scope(s["function"], s["rule"]):
+                col.sites.append(s)
+                col.functions.add(s["function"])
+                kept += 1
+        col.findings.extend(f for f in sub.findings if in_scope(f.func, f.rule))
+        col.undecided.extend(u for u in sub.undecided if in_scope(u["function"], u["rule"]))
+        # the hand-confirmed minima of the group are checked on the unfiltered run (a vanished anchor is still an error)
+        for msg in sub.low_counts():
+            col.undecidable(GameModel(prog).mod.rel(), f"game.{_CLASS}", msg, rule="G-sub")
+    col.note("game substrate: methods in scope = " + ", ".join(sorted(used)))
+
+
+def _own_rules(pid: str):
+    from . import PROPERTIES
+    return [r for r in PROPERTIES[pid]["rules"] if r is not rule_game_substrate]
